@@ -116,6 +116,14 @@ def apply_rule(mirror, rule):
             off += len(ins)
         open(path, 'w').write(src)
         return True, 'inserted after %d anchor(s)' % len(ms)
+    if kind == 'x86asm':
+        try:
+            new, facts = rewrite_x86_asm(src, rule['count'])
+        except ValueError as e:
+            return False, str(e)
+        open(path, 'w').write(new)
+        rule['facts'] = facts
+        return True, '%d asm statements replaced by instruction contracts' % len(facts)
     if kind == 'loop':
         m = mask(src)
         fb = find_function_body(m, rule['func'])
@@ -159,6 +167,62 @@ def apply_rule(mirror, rule):
     return False, 'unknown rule kind ' + kind
 
 
+def split_operands(txt):
+    """'"c"(expr), "c2" (expr2)' -> [(constraint, expr), ...] (balanced parentheses)."""
+    ops, i, n = [], 0, len(txt)
+    while i < n:
+        m = re.compile(r'\s*,?\s*"([^"]*)"\s*\(').match(txt, i)
+        if not m:
+            if txt[i:].strip():
+                raise ValueError('cannot parse operand list: ' + txt[i:])
+            break
+        p = m.end() - 1
+        q = match_paren(txt, p)
+        ops.append((m.group(1), txt[p + 1:q].strip()))
+        i = q + 1
+    return ops
+
+
+X86_WIDTH = {'b': 'uint8_t', 'w': 'uint16_t', 'l': 'uint32_t', 'q': 'uint64_t'}
+X86_KNOWN = {'cmpxchg': 3, 'xchg': 3, 'xadd': 2, 'and': 2, 'or': 2, 'add': 2, 'inc': 1, 'dec': 1}
+
+
+def rewrite_x86_asm(src, want):
+    """replace every `__asm__ __volatile__("insn" : outs : ins : "memory");` of uatomic/x86.h by a call of
+    the instruction contract VERIF_X86_<mnemonic>(W, locked, operands in %0.. order [tied inputs last]).
+    Returns (new_src, facts) or raises ValueError (unknown mnemonic / shape)."""
+    out, pos, facts = [], 0, []
+    for mo in re.finditer(r'__asm__\s+__volatile__\s*\(', src):
+        p = mo.end() - 1
+        q = match_paren(mask(src), p)
+        body = src[p + 1:q]
+        end = src.index(';', q) + 1
+        parts = body.split(':')
+        if len(parts) != 4:
+            raise ValueError('asm statement with %d sections' % len(parts))
+        tmpl = ''.join(re.findall(r'"([^"]*)"', parts[0])).strip()
+        m = re.match(r'^(lock;\s*)?([a-z]+?)([bwlq])\s+(.*)$', tmpl)
+        if not m:
+            raise ValueError('unknown asm template: ' + tmpl)
+        lock, mnem, w, args = bool(m.group(1)), m.group(2), m.group(3), m.group(4)
+        if mnem not in X86_KNOWN:
+            raise ValueError('unknown mnemonic: ' + mnem)
+        outs, ins = split_operands(parts[1]), split_operands(parts[2])
+        clob = parts[3]
+        ops = [e for (_, e) in outs] + [e for (c, e) in ins]
+        if len(ops) != X86_KNOWN[mnem]:
+            raise ValueError('%s with %d operands' % (mnem, len(ops)))
+        facts.append({'template': tmpl, 'lock': lock, 'mnemonic': mnem, 'width': w, 'memory_clobber': '"memory"' in clob,
+                      'constraints': [c for (c, _) in outs + ins]})
+        out.append(src[pos:mo.start()])
+        out.append('VERIF_X86_%s(%s, %d, %s);' % (mnem, X86_WIDTH[w], 1 if lock else 0, ', '.join('(' + o + ')' if not o.startswith('*') else o for o in ops)))
+        pos = end
+    out.append(src[pos:])
+    if len(facts) != want:
+        raise ValueError('found %d asm statements, expected %d' % (len(facts), want))
+    return ''.join(out), facts
+
+
 def L(id_, file, func, keyword, nth, name, count=None):
     r = {'id': id_, 'file': file, 'kind': 'loop', 'func': func, 'keyword': keyword, 'nth': nth,
          'marker': 'URCU_VERIF_LOOP(%s)' % name, 'markers': ('URCU_VERIF_LOOP_%s' % name,)}
@@ -169,6 +233,9 @@ def L(id_, file, func, keyword, nth, name, count=None):
 
 # group name -> list of rules.  A property's obligations name the groups their TU depends on.
 RULES = {
+ 'x86asm': [
+  {'id': 'uatomic_x86_asm', 'file': 'include/urcu/uatomic/x86.h', 'kind': 'x86asm', 'count': 32},
+ ],
  'lfht_resize': [
   L('init_table_loop', 'src/rculfhash.c', 'init_table', 'for', 1, 'init_table', count=1),
   L('fini_table_loop', 'src/rculfhash.c', 'fini_table', 'for', 1, 'fini_table', count=1),
